@@ -235,6 +235,7 @@ func checkWriterTable(c *core.Ctx, fn *ssa.Function) string {
 func runC01(c *core.Ctx) {
 	checkFullReads(c)
 	checkReservedBytesWritten(c)
+	checkStreamExactLength(c)
 	// ---- writer tables
 	sinkW := c.Fn("common", "ZeroCopySink.WriteVarUint")
 	serW := c.Fn(pkSerialization, "WriteVarUint")
